@@ -32,6 +32,8 @@ func repoRoot() string {
 	return "/repo"
 }
 
+var loadedModules []*Module
+
 // Module is one loaded Go module of the repository.
 type Module struct {
 	Dir     string
@@ -47,6 +49,12 @@ type Module struct {
 	NInstr int
 
 	seamCache map[*ssa.Global]*ssa.Function
+
+	// helper splicing (inl.go)
+	anchors    map[*ssa.Function]bool
+	inlineOn   bool
+	anchorOff  bool
+	helperSite map[*ssa.Function]*ssa.Call
 }
 
 func loadEnv() []string {
@@ -140,6 +148,7 @@ func loadModule(sub string, minPkgs int, overlay map[string][]byte) (*Module, er
 			m.NInstr += len(b.Instrs)
 		}
 	}
+	loadedModules = append(loadedModules, m)
 	return m, nil
 }
 
@@ -159,6 +168,9 @@ func (m *Module) pos(p token.Pos) string {
 		return "-"
 	}
 	ps := m.Fset.Position(p)
+	if l, ok := mapDupPos(ps.Filename, ps.Line); ok {
+		ps.Line = l
+	}
 	rel, err := filepath.Rel(repoRoot(), ps.Filename)
 	if err != nil {
 		rel = ps.Filename
@@ -184,7 +196,9 @@ func (m *Module) lookupFunc(rel, name string) *ssa.Function {
 	if p == nil {
 		return nil
 	}
-	return p.Func(name)
+	fn := p.Func(name)
+	m.anchor(fn)
+	return fn
 }
 
 func (m *Module) lookupType(rel, name string) *types.Named {
@@ -213,11 +227,13 @@ func (m *Module) lookupMethod(rel, typ, name string) *ssa.Function {
 			if sel.Obj().Name() == name {
 				fn := m.Prog.MethodValue(sel)
 				if fn != nil && fn.Synthetic == "" {
+					m.anchor(fn)
 					return fn
 				}
 				// wrapper around a value-receiver method: find the declared one
 				if f, ok := sel.Obj().(*types.Func); ok {
 					if d := m.Prog.FuncValue(f); d != nil {
+						m.anchor(d)
 						return d
 					}
 				}
